@@ -1160,17 +1160,20 @@ class C01(fw.Prop):
             cases.append({"seed": rng.randrange(1 << 30), "root": "tdfg"})
         # programs inside the extended builder model (model/Builder2.v): loops, conditionals (cases in any order,
         # if/else), every insert_* variant, CallIndirect, Dfg / TailLoop / Conditional roots (drawn last again)
+        ext = []
         for i in range(120 if tier == "quick" else 1500):
-            cases.append({"seed": rng.randrange(1 << 30), "root": ["dfg", "loop", "cond", "dfg"][i % 4],
-                          "allow": ["nested", "cond", "loop", "order", "md", "insert"],
-                          "size": rng.choice([4, 6, 8, 10]), "depth": rng.choice([2, 3, 3, 4])})
+            ext.append({"seed": rng.randrange(1 << 30), "root": ["dfg", "loop", "cond", "dfg"][i % 4],
+                        "allow": ["nested", "cond", "loop", "order", "md", "insert"],
+                        "size": rng.choice([4, 6, 8, 10]), "depth": rng.choice([2, 3, 3, 4])})
         # near-miss programs: a well-formed program with one inconsistency the builders have to refuse (see near_miss);
         # drawn last again
         nm_roots = ["dfg", "cond", "module", "cfg", "func", "cond", "dfg", "loop"]
         for i in range(96 if tier == "quick" else 900):
             cases.append({"seed": rng.randrange(1 << 30), "root": nm_roots[i % len(nm_roots)],
                           "nearmiss": rng.randrange(1 << 30), "size": rng.choice([3, 4, 6]), "depth": rng.choice([2, 3])})
-        return cases
+        # the programs of the extended stream are the most expensive to evaluate in Coq (large inserted / looping documents):
+        # they are EVALUATED first (same draws, same seeds) so that their shards do not form the tail of the parallel run
+        return ext + cases
 
     def program(self, case):
         if "named" in case:
